@@ -123,7 +123,7 @@ EXTENSIONS = {
  "C12": "Also: set_params events for every model-specific hyperparameter, pickle / deepcopy events, precomputed matrices clean only up to rounding, decorated configurations, pure-query oracle, and a process-isolation explorer that compares with a fresh interpreter after other objects of all 18 classes have worked in the process.",
  "C13": "Also: hundreds-thousands of samples (reversal, rotation, shuffle, swapped halves), prediction dtypes (float32; int/bool hard partitions), read-only arguments, reordered problems in Fortran order / strided views, in-place reordering by the caller.",
  "C14": "Also: training histories (refits, queries in between, path, constraints added in two calls, verbose mode) observed with a class-level spy; three constraint layouts.",
- "C15": "Also: batch_size axis with whole-query-set public calls, query dtypes, distinct cells give distinct predictions, storage order of cut points, set_params route.",
+ "C15": "Also: transported copies of the fitted model, batch_size axis with whole-query-set public calls, query dtypes, distinct cells give distinct predictions, storage order of cut points, set_params route.",
  "C16": "Also: the whole must-link / cannot-link pair-set lattice as an inconsistent-combination domain, numeric text as non-numeric data, a refused estimator must refuse predict / score / print, the caller's groups list stays valid and unchanged.",
  "C17": "Also: a GEMINI-level explorer (degenerate affinities x degenerate predictions x n in {6,20,80}, integer / boolean hard partitions), copies-of-samples families, non-default kernels, set_params route.",
  "C18": "Also: large query arrays, integer / float32 queries, time-stamp-like features, refit of an object that had predicted before.",
